@@ -62,11 +62,13 @@ impl DataItem for DateItem {
 
         match operation_type {
             OperationType::Add => {
+                let mut year = date.year();
+                let mut month0 = date.month0();
+
                 match self.get_year_from_duration(duration) {
                     0 => (),
                     n => {
-                        let years_diff = date.year() + n as i32;
-                        date     = NaiveDate::from_ymd_opt(years_diff as i32, date.month() as u32, date.day())?;
+                        year    += n as i32;
                         duration = Duration::seconds(duration.num_seconds() - (YEAR * n))
                     }
                 };
@@ -74,21 +76,24 @@ impl DataItem for DateItem {
                 match self.get_month_from_duration(duration) {
                     0 => (),
                     n => {
-                        let years_diff = (date.month0() + n as u32) / 12;
-                        let month = (date.month0() + n as u32) % 12 + 1;
-                        date     = NaiveDate::from_ymd_opt(date.year() + years_diff as i32, month as u32, date.day())?;
+                        year    += ((month0 + n as u32) / 12) as i32;
+                        month0   = (month0 + n as u32) % 12;
                         duration = Duration::seconds(duration.num_seconds() - (MONTH * n))
                     }
                 };
+
+                date = NaiveDate::from_ymd_opt(year, month0 + 1, date.day())?;
                 Some(Rc::new(DateItem(date.checked_add_signed(duration)?, self.1.clone())))
             },
 
             OperationType::Sub => {
+                let mut year = date.year();
+                let mut months = date.month() as i32;
+
                 match self.get_year_from_duration(duration) {
                     0 => (),
                     n => {
-                        let years_diff = date.year() - n as i32;
-                        date     = NaiveDate::from_ymd_opt(years_diff as i32, date.month() as u32, date.day())?;
+                        year    -= n as i32;
                         duration = Duration::seconds(duration.num_seconds() - (YEAR * n))
                     }
                 };
@@ -96,16 +101,17 @@ impl DataItem for DateItem {
                 match self.get_month_from_duration(duration) {
                     0 => (),
                     n => {
-                        let years = date.year() - (n as i32 / 12);
-                        let mut months = date.month() as i32 - (n as i32 % 12);
+                        year   -= n as i32 / 12;
+                        months -= n as i32 % 12;
                         if months < 0 {
                             months += 12;
                         }
 
-                        date = NaiveDate::from_ymd_opt(years as i32, months as u32, date.day())?;
                         duration = Duration::seconds(duration.num_seconds() - (MONTH * n))
                     }
                 };
+
+                date = NaiveDate::from_ymd_opt(year, months as u32, date.day())?;
                 Some(Rc::new(DateItem(date.checked_sub_signed(duration)?, self.1.clone())))
             },
             _ => None
